@@ -203,6 +203,40 @@ def search(payload):
                                   "kind": "p == q but p(x) != q(x)", "p(x)": repr(call(p, x)), "q(x)": repr(call(q, x)),
                                   "p_function": _fn_desc(p), "q_function": _fn_desc(q)})
                     break
+    # HISTORY: (1) p == q, then p is asked about the values in one order and q in the opposite order (a per-object memo of earlier answers
+    # or of f(x) shows as a difference); guards on either side of | and & (an operand that raises on what the other accepts);
+    # (2) p == q, then something the library itself does to p (truth_table assigns its variables), then p == q again
+    from predicate.standard_predicates import is_str_p as _isstr, is_int_p as _isint, ge_p as _ge0, regex_p as _rx, is_none_p as _isnone
+    from predicate.parser import parse_expression as _parse
+    from predicate.truth_table import truth_table as _tt
+    seqvals = [1, True, 1.0, 0, False, 0.0, 7, 7.0, "a", "", "12", None, (1,), (1.0,), 2, "7"]
+    hp = [(_isstr | _ge0(0), _ge0(0) | _isstr), (_isnone | _ge0(0), _ge0(0) | _isnone), (_isint & _ge0(0), _ge0(0) & _isint), (comp_p(str, _rx(r"^\d+$")), comp_p(str, _rx(r"^\d+$"))),
+          (comp_p(type, PP.EqPredicate(v=int)), comp_p(type, PP.EqPredicate(v=int))), (comp_p(str, PP.EqPredicate(v="1.0")), comp_p(str, PP.EqPredicate(v="1.0"))),
+          (all_p(comp_p(str, _rx(r"^\d$"))), all_p(comp_p(str, _rx(r"^\d$")))), (is_set_of_p(_isint), is_set_of_p(_isint)), (all_p(_isint), all_p(_isint))]
+    for p, q in hp:
+        n += 1
+        try:
+            if not (p == q):
+                continue
+        except Exception:  # noqa: BLE001
+            continue
+        xs = seqvals + [[1], [True], [1.0], {1}, {1.0}, {True}]
+        ap = [call(p, x) for x in xs]
+        aq = [call(q, x) for x in xs[::-1]][::-1]
+        for x, a, b in zip(xs, ap, aq):
+            if a[0] == "ok" and b[0] == "ok" and a != b:
+                fails.append({"p": repr(p), "q": repr(q), "p_structure": str(skey(p)), "q_structure": str(skey(q)), "x": repr(x), "kind": "p == q but p(x) != q(x)",
+                              "p(x)": repr(a), "q(x)": repr(b), "history": f"p was asked about {xs!r} in this order, q in the opposite order"})
+                break
+    for text in ("a | b", "a & b", "(a ^ b) | c", "~a | b"):
+        n += 1
+        p, q = _parse(text), _parse(text)
+        if p is None or q is None or not (p == q):
+            continue
+        list(_tt(p))                                   # the library assigns p's variables, row by row
+        if p == q and call(p, None) != call(q, None):
+            fails.append({"p": f"parse_expression({text!r})", "q": f"parse_expression({text!r}) (a second parse)", "x": "None", "kind": "p == q but p(x) != q(x)",
+                          "p(x)": repr(call(p, None)), "q(x)": repr(call(q, None)), "history": "p == q was True; then list(truth_table(p)); p == q is still True although p's variables now hold the last row"})
     trees = [gen.build(gen.random_shape(rng_of(payload), 6, 3), [lambda k=k: ps[k] for k in (0, 7, 20, 30, 45, 60)]) for _ in range(300)]
     # twins in sequence, in both orders, in this one process (anything remembered under repr() confuses them)
     seq = []
